@@ -307,7 +307,7 @@ class ContextChain(ChainMap[SrcDst, Context]):
 
     @property
     def defaults(self) -> dict[str, Any]:
-        for ctx in self.values():
+        for ctx in self.contexts:
             return ctx.defaults
         return {}
 
